@@ -1493,4 +1493,4 @@ package zygo
 //@ ghost tildeJustRead := false @entry
 //@ ghost tildeJustRead := arg1.typ == TokenTilde @after call AppendToken[*]
 //@ C15 assert tilde-does-not-swallow-a-delimiter @before call WriteRune[*]: tildeJustRead ==> !opensToken(arg1)
-//@ C15 loop 0 invariant rescan-after-tilde: tildeJustRead ==> lexer.state == LexerNormal && opensToken(r)
+//@ C15 loop 0 invariant rescan-after-tilde: tildeJustRead ==> lexer.state == LexerNormal && (opensToken(r) || r == 39 || r == 96 || r == 126 || r == 94)
